@@ -19,7 +19,7 @@ ASSUMPTIONS = ["send histories are recorded at the client boundary with one stea
 FLOORS = {"sends_checked": {"quick": 8000, "thorough": 150000}, "deliveries_checked": {"quick": 5000, "thorough": 100000},
           "refusals_justified": {"quick": 300, "thorough": 5000}, "scenarios_queue_filled": {"quick": 15, "thorough": 250},
           "late_sends_refused": {"quick": 150, "thorough": 2500}, "sends_while_loop_waiting": {"quick": 200, "thorough": 4000},
-          "conflated_noop_deltas_accepted": {"quick": 300, "thorough": 5000}}
+          "conflated_noop_deltas_accepted": {"quick": 300, "thorough": 5000}, "multi_source_graphs": {"quick": 10, "thorough": 200}}
 HOOKS = ["rt.mark.before_lock", "rt.mark.before_notify", "ps.send.after_admission", "ps.pop.after_unlock", "ps.eval.after_emit",
          "rt.wait.enter", "rt.wait.leave", "rt.stop.before_lock", "rt.stop.before_notify"]
 
@@ -45,6 +45,8 @@ def gen(rng, k, seed):
         kv["delays"] = ",".join(ds)
     if rng.random() < 0.2:
         kv["slice_us"] = rng.choice([200, 2000])
+    if policy != "conflate" and kv["producers"] >= 2 and rng.random() < 0.3:
+        kv["sources"] = rng.choice([2, 2, 3])          # several push sources share the executor's single wake-up flag
     return Scenario(f"c16_{seed}_{k}", kv)
 
 
@@ -93,6 +95,29 @@ def check_conflating_dict(sc, tr, rc):
 def check(sc, tr, rc):
     if sc.kv.get("kind") == "cpush":
         return check_conflating_dict(sc, tr, rc)
+    nsrc = int(sc.kv.get("sources", 1))
+    if nsrc > 1 and tr is not None and tr.run is not None:
+        # several push sources in ONE graph: each source is a queue of its own (its producers are those with p % sources == s)
+        import copy
+        Vall, Call, verdict = [], {}, "held"
+        for src in range(nsrc):
+            t2 = copy.copy(tr)
+            t2.sends = [x for x in tr.sends if x[1] == "late" and src == 0 or (x[1] != "late" and ((x[2] // 1000000) - 1) % nsrc == src)]
+            t2.deliveries = [d for d in tr.deliveries if d[5] == src]
+            V, C, v = check_single(sc, t2, rc)
+            Vall += [f"source {src}: {m}" for m in V]
+            for k, val in C.items():
+                Call[k] = Call.get(k, 0) + val
+            if v == "violation":
+                verdict = "violation"
+            elif v == "inconclusive" and verdict == "held":
+                verdict = "inconclusive"
+        Call["multi_source_graphs"] = 1
+        return Vall, Call, verdict
+    return check_single(sc, tr, rc)
+
+
+def check_single(sc, tr, rc):
     V, C = [], {}
     kv = sc.kv
     policy, cap = kv["policy"], int(kv["cap"])
